@@ -11,6 +11,9 @@ Winner(gens, p) == CHOOSE i \in DOMAIN gens : gens[i].path = p /\ \A j \in DOMAI
 Planned(gens) == [p \in PathsOf(gens) |-> gens[Winner(gens, p)]]
 \* the plan in safe mode: the winners that declare themselves safe (a path whose winner is not safe is not planned at all)
 SafePaths(gens) == {p \in PathsOf(gens) : Planned(gens)[p].safe}
+\* A generator may decline a device (supports_device(), a hook a subclass may override independently of path()): it then takes no part
+\* in that device's plan, whatever path it names.  Records carry `supports`; the plan is made of the taking-part generators only.
+Active(gens) == SelectSeq(gens, LAMBDA g : g.supports)
 \* A-layer: sequential add_entire
 RECURSIVE Fold(_, _)
 Fold(gens, acc) ==
